@@ -177,6 +177,31 @@ def rule_b(ctx: Context, R: Reporter, f: FuncInfo):
     red = [c for c in calls_in(f.node) if (ctx.res.external_name(f, c) or "") in ("numpy.logaddexp.reduce", "scipy.special.logsumexp") and any(k.arg == "axis" for k in c.keywords)]
     R.check("C04.b", "the mixture over iterations is a symmetric log-sum-exp reduction along one axis", len(red) >= 1, f, red[0] if red else f.node,
             msg=f"{f.short}: no log-sum-exp reduction with an explicit axis over the component matrix", key="reduction-present")
+    # the reduction runs over every component: its operand is not the matrix with some columns (iterations) cut out
+    rs_ = ExprResolver(f.node, max_depth=6)
+    for c in red:
+        axv = const_value(next(k.value for k in c.keywords if k.arg == "axis"))
+        if not c.args or not isinstance(axv, int):
+            continue
+        nd_ = flow_of(f.node).node_containing(c)
+        op = c.args[0]
+        opr = rs_.resolve(op, nd_) if isinstance(op, ast.Name) and nd_ is not None else op
+        while isinstance(opr, ast.Subscript):
+            idx = list(opr.slice.elts) if isinstance(opr.slice, ast.Tuple) else [opr.slice]
+            ell = next((i for i, x in enumerate(idx) if isinstance(x, ast.Constant) and x.value is Ellipsis), None)
+            pos = axv if axv >= 0 else None
+            cut = None
+            if pos is not None and ell is None and pos < len(idx):
+                cut = idx[pos]
+            elif axv == -1 and idx and (ell is not None or len(idx) >= 2):
+                cut = idx[-1]
+            full = cut is None or (isinstance(cut, ast.Slice) and cut.lower is None and cut.upper is None and cut.step is None) or (isinstance(cut, ast.Constant) and cut.value is Ellipsis)
+            if not full:
+                R.check("C04.d", "mixture components are not sub-selected, merged or reordered", False, f, c,
+                        msg=f"{f.short}: `{unparse(c)[:70]}` reduces over a selection `{unparse(cut)[:30]}` of the components: every stored iteration is a term of the mixture denominator "
+                            f"for every sample (a component negligible at the extreme log-likelihoods can dominate in between)", key="component-columns-selected")
+                break
+            opr = opr.value
     # C04.c hazards
     seenh = set()
     for (node, t) in si.hazards:
@@ -248,6 +273,13 @@ def rule_a(ctx: Context, R: Reporter, f: FuncInfo):
         ("denominator depends on every iteration's logZ", reads(den, "logz"), "den-logz"),
         ("denominator depends on the stored log-likelihoods", reads(den, "logl"), "den-logl"),
     ]
+    # the denominator is the log-sum-exp itself, not a clamped version of it
+    for c in ast.walk(den):
+        if isinstance(c, ast.Call) and (ctx.res.external_name(f, c) or "") in ("numpy.maximum", "numpy.minimum", "numpy.fmax", "numpy.fmin", "numpy.clip", "numpy.nan_to_num", "numpy.where") \
+                and any(isinstance(x, ast.Call) and (ctx.res.external_name(f, x) or "") in ("numpy.logaddexp.reduce", "scipy.special.logsumexp") for a in c.args for x in ast.walk(a)):
+            R.check("C04.a", "the denominator is the mixture log-density itself (no floor / ceiling on it)", False, f, base.stmt,
+                    msg=f"{f.short}: the mixture log-density is passed through `{unparse(c.func)}` with an absolute bound before it is subtracted: a sample whose mixture density lies beyond the "
+                        f"bound (log-likelihoods of large magnitude, histories without a prior-level iteration) gets a weight that is not the balance-heuristic weight", key="den-clamped")
     for (desc, ok, key) in checks:
         R.check("C04.a", desc, ok, f, base.stmt, msg=f"{f.short}: in `{unparse(base.stmt)}` the {desc.split(' depends')[0]} does not depend on {desc.split('on ', 1)[1]}", key=key)
     # batch-size mixture weights: log(n_t) - log(N) with N = sum n_t, n_t = len of iteration t
@@ -573,6 +605,9 @@ def variants():
         Variant("e-logw-memo-reset-benign", "benign", _memo_variant(True)),
         Variant("a-drop-mixture-weights", "bad", replace_expr(sm, g, "b + log_mixture_weights[None, :]", "b"), ["C04.a"], quick=True),
         Variant("a-uniform-mixture-weights", "bad", replace_stmt(sm, g, "log_mixture_weights = np.log(n_per_iter) - np.log(N_total)", "log_mixture_weights = -np.log(len(beta)) * np.ones(len(beta))"), ["C04.a"]),
+        Variant("d-reduction-over-selected-columns", "bad", replace_stmt(sm, g, "B = np.logaddexp.reduce(b_weighted, axis=1)", "active = (b_weighted.max(axis=0) > -700.0)\nB = np.logaddexp.reduce(b_weighted[:, active], axis=1)"), ["C04.d"], quick=True),
+        Variant("d-benign-reduction-over-all-rows-slice", "benign", replace_stmt(sm, g, "B = np.logaddexp.reduce(b_weighted, axis=1)", "B = np.logaddexp.reduce(b_weighted[:, :], axis=1)")),
+        Variant("a-mixture-density-floored", "bad", replace_stmt(sm, g, "B = np.logaddexp.reduce(b_weighted, axis=1)", "B = np.logaddexp.reduce(b_weighted, axis=1)\nB = np.fmax(B, -708.0)"), ["C04.a"], quick=True),
         Variant("b-wrong-axis", "bad", replace_expr(sm, g, "np.logaddexp.reduce(b_weighted, axis=1)", "np.logaddexp.reduce(b_weighted, axis=0)"), ["C04.b"], quick=True),
         Variant("b-numerator-unit-beta", "bad", replace_stmt(sm, g, "A = logl_all * beta_final", "A = logl_all"), ["C04.b", "C04.a"]),
         Variant("b-logz-not-normalised-count", "bad", replace_stmt(sm, g, "logz_new = np.logaddexp.reduce(logw) - np.log(logw.size)", "logz_new = np.logaddexp.reduce(logw)"), ["C04.a"]),
